@@ -108,18 +108,9 @@ def loop_count(loop, env=None):
     return None
 
 
-def r_all(ctx):
-    f = ctx.fn("sampling.sample")
-    model, results = f.params[0], f.params[1]
-    case = case_body(f, "MCMCModel")
-    mod = ast.Module(body=case.body, type_ignores=[])
-    fn = ast.FunctionDef(name="_case", args=f.node.args, body=case.body, decorator_list=[], returns=None, type_params=[])
-    ast.fix_missing_locations(fn)
-    g = CFG(fn)
-    env = {}
-    for n in case.body:
-        if isinstance(n, ast.Assign) and len(n.targets) == 1 and isinstance(n.targets[0], ast.Name):
-            env[n.targets[0].id] = n.value
+def order_before_first_step(ctx, f, model, mod, g):
+    """R1: reset_model() and set_rng(..) run, unconditionally, before any step() of the chain (C18 runs this clause too: a generator that is
+    installed only sometimes leaves the chain drawing from whatever generator the model object already carried)"""
     steps = [c for c in calls(mod) if is_step(c, model)]
     ctx.need(steps, "sampling.sample: no model.step() call in the MCMC arm")
     first = g.node_containing(steps[0])
@@ -149,6 +140,30 @@ def r_all(ctx):
             ok = all(any(n in dom.get(t, ()) for n in nodes) for t in targets)
         ctx.check("R1", f"{f.site()}::{name}-before-first-step", ok, f"{model}.{name}(...) dominates every step()",
                   f"a step() can run before {model}.{name}(...): the chain would start from a stale state / an unset generator")
+
+
+def r1_order(ctx):
+    r_all(ctx, only_order=True)
+
+
+def r_all(ctx, only_order=False):
+    f = ctx.fn("sampling.sample")
+    model, results = f.params[0], f.params[1]
+    case = case_body(f, "MCMCModel")
+    mod = ast.Module(body=case.body, type_ignores=[])
+    fn = ast.FunctionDef(name="_case", args=f.node.args, body=case.body, decorator_list=[], returns=None, type_params=[])
+    ast.fix_missing_locations(fn)
+    g = CFG(fn)
+    env = {}
+    for n in case.body:
+        if isinstance(n, ast.Assign) and len(n.targets) == 1 and isinstance(n.targets[0], ast.Name):
+            env[n.targets[0].id] = n.value
+    order_before_first_step(ctx, f, model, mod, g)
+    if only_order:
+        return
+    steps = [c for c in calls(mod) if is_step(c, model)]
+    first = g.node_containing(steps[0])
+    par = enclosing_map(mod)
     # ---- R2 / R3: loop shapes
     N = Norm(strict=False, env=env)
     lps = [lp for lp in loops_in(case) if any(is_step(c, model) for c in calls(lp))]
